@@ -1,6 +1,7 @@
 package main
 
 import (
+	"strconv"
 	"fmt"
 	"strings"
 
@@ -11,6 +12,28 @@ func init() {
 	extSteps["enew"] = func(p *prog, idx int, toks []string) *rec { return p.stepENew(toks) }
 	extSteps["eadd"] = func(p *prog, idx int, toks []string) *rec { return p.stepEAdd(toks) }
 	extSteps["fma"] = func(p *prog, idx int, toks []string) *rec { return p.stepFMA(toks) }
+	extSteps["itol"] = func(p *prog, idx int, toks []string) *rec {
+		if len(toks) != 4 {
+			return simple("badprog")
+		}
+		i, e0 := strconv.ParseInt(toks[1], 10, 64)
+		sh, e1 := parseInts(toks[2])
+		st, e2 := parseInts(toks[3])
+		if e0 != nil || e1 != nil || e2 != nil {
+			return simple("badprog")
+		}
+		var coords []int
+		res := guard(func() error {
+			var err error
+			coords, err = tensor.Itol(int(i), tensor.Shape(sh), st)
+			return err
+		})
+		r := simple(res)
+		if res == "ok" {
+			r.fields["coords"] = showInts(coords)
+		}
+		return r
+	}
 	generators["C20"] = genC20
 }
 
@@ -128,6 +151,27 @@ func genC20(g *gen) {
 	}
 	engs := []string{"std", "f64", "f32"}
 	stdDt := "f64"
+	// index arithmetic of the two builds on large arrays (no allocation): flat indices around and far beyond 2^31 split
+	// by the strides of big shapes, and small ones
+	for _, c := range []struct {
+		sh []int
+		is []int64
+	}{
+		{[]int{65536, 65536}, []int64{0, 7, 65535, 65536, 65537, 2147483647, 2147483648, 2147483649, 40000<<16 + 7, 4294967295, 3000000000}},
+		{[]int{100000, 50000, 3}, []int64{149999, 150000, 2147483648, 14999999999, 7500000001}},
+		{[]int{3, 4}, []int64{0, 5, 11}},
+		{[]int{1 << 20, 1 << 20, 4}, []int64{1 << 40, 1<<42 - 1, 4398046511103, 2199023255557}},
+	} {
+		st := make([]int, len(c.sh))
+		acc := 1
+		for d := len(c.sh) - 1; d >= 0; d-- {
+			st[d] = acc
+			acc *= c.sh[d]
+		}
+		for _, i := range c.is {
+			g.emit(fmt.Sprintf("itol %d %s %s", i, ints(c.sh), ints(st)))
+		}
+	}
 	mk := func(steps *[]string, nv *int, eng string, sh []int, layout string) int {
 		dt := "f64"
 		if eng == "f32" {
